@@ -49,6 +49,7 @@ DEPTH = 4
 WRAPPERS = [
     {
         "name": "CountedLock",
+        "release_fail_resets": True,
         "rel": "breezy/counted_lock.py",
         "cls": "CountedLock",
         "fields": {"_lock_mode": None, "_lock_count": 0, "_token": None},
@@ -60,6 +61,7 @@ WRAPPERS = [
     },
     {
         "name": "LockableFiles",
+        "release_fail_resets": True,
         "rel": "breezy/bzr/lockable_files.py",
         "cls": "LockableFiles",
         "fields": {"_lock_mode": None, "_lock_count": 0, "_token_from_lock": None, "_transaction": None},
@@ -91,9 +93,10 @@ PHYS_RELEASE = {"unlock"}
 class World:
     """Choices for one abstract step + recorded events."""
 
-    def __init__(self, acquire_fails=False, token_fails=False):
+    def __init__(self, acquire_fails=False, token_fails=False, release_fails=False):
         self.acquire_fails = acquire_fails
         self.token_fails = token_fails
+        self.release_fails = release_fails
         self.events = []
         self.neutral = set()
         self.asked_acquire = False
@@ -161,6 +164,8 @@ def build_interp(repo, world):
                 return Opaque("token")
             if meth in PHYS_RELEASE:
                 world.events.append("release")
+                if world.release_fails:
+                    raise Raised("LockBroken", (), call)
                 return None
             if meth == "validate_token":
                 world.asked_token = True
@@ -211,11 +216,11 @@ def build_interp(repo, world):
     return it
 
 
-def step(repo, wname, obj, method, with_token, acquire_fails, token_fails):
+def step(repo, wname, obj, method, with_token, acquire_fails, token_fails, release_fails=False):
     """Evaluate one method call abstractly.  Returns (obj', outcome, events, world)."""
     w = BY_NAME[wname]
     o2 = clone(obj)
-    world = World(acquire_fails, token_fails)
+    world = World(acquire_fails, token_fails, release_fails)
     it = build_interp(repo, world)
     fn = repo.func(w["rel"], f"{w['cls']}.{method}")
     env = {"self": o2}
@@ -345,6 +350,12 @@ def explore(ctx, repo, w):
                                 ng = (0, None, phys - rel)
                                 ctx.check("K8-release-once", where, ok, "physical release exactly on the last unlock: " + desc, construct=desc)
                                 ctx.check("K8-initial-state", where, snap(o2) == snap(init), "after the last unlock the bookkeeping is back in its initial state: " + desc, construct=desc)
+                                if w.get("release_fail_resets") and phys:
+                                    # the physical unlock itself fails (e.g. LockBroken after a break-lock): the wrapper must
+                                    # not go on believing it holds the lock
+                                    o3, out3, ev3, _w3 = step(repo, wname, obj, method, with_token, False, False, release_fails=True)
+                                    transitions += 1
+                                    ctx.check("K8-failed-release-forgets", where, out3.startswith("raise") and snap(o3) == snap(init), f"{wname}.unlock at depth=1: a failing physical unlock propagates and leaves the bookkeeping unlocked ({out3}, fields {dict(snap(o3))})", construct=f"{out3} {dict(snap(o3))}", message=f"{wname}.unlock: when the physical unlock raises on the last unlock the wrapper still counts itself locked ({dict(snap(o3))}): the next lock_write() is answered from the counter without taking the physical lock")
                             else:
                                 ok = outcome == "ok" and rel == 0 and acq == 0
                                 ng = (depth - 1, mode, phys)
@@ -368,6 +379,22 @@ def run(ctx):
         states, transitions, neutral = explore(ctx, repo, w)
         stats[w["name"]] = {"states": states, "transitions": transitions, "neutral_calls": sorted(neutral)}
         ctx.require(states >= 2 * DEPTH, f"{w['name']}: only {states} abstract states reached, exploration is degenerate")
+    # ---- multi-resource acquisition unwinds: a lock taken earlier in the same call is released when a later step fails ----
+    from ..rules import calling, fn_cfg, need
+
+    WT4 = "breezy/bzr/workingtree_4.py"
+    for meth, acq_attr in (("lock_read", "lock_read"), ("_lock_self_write", "lock_write")):
+        fn, g, where = fn_cfg(ctx, WT4, f"DirStateWorkingTree.{meth}")
+        acq = need(where, calling(g, attr=acq_attr, recv="self._control_files"), f"self._control_files.{acq_attr}()")
+        rel = calling(g, attr="unlock", recv="self._control_files")
+        # statements that run after the control-files lock was obtained
+        after = g.without_exc_edges().reach(acq)
+        xs = [b for n_ in after for (b, l_) in g.succ[n_] if l_ == "X"]
+        leak = g.raise_exit in g.reach(xs, avoid=set(rel), include_src=True) if xs else False
+        ctx.check("K3-acquisition-unwinds", where, bool(rel) and bool(xs) and not leak, f"a failure after self._control_files.{acq_attr}() succeeded (e.g. the dirstate's own lock is refused) releases the control-files lock before propagating", message=f"DirStateWorkingTree.{meth}: when a step after self._control_files.{acq_attr}() fails, the control-files lock (the tree's physical LockDir) is not released: a refused lock leaves the tree locked on disk with the counter off by one")
+        br = calling(g, attr="unlock", recv="self.branch")
+        xs2 = [b for n_ in acq for (b, l_) in g.succ[n_] if l_ == "X"] + xs
+        ctx.check("K3-acquisition-unwinds", where, bool(br) and g.raise_exit not in g.reach(xs2, avoid=set(br), include_src=True), "any failure after the branch was locked unlocks the branch again")
     ctx.extra["typestate"] = stats
     ctx.extra["states"] = sum(s["states"] for s in stats.values())
     ctx.extra["transitions"] = sum(s["transitions"] for s in stats.values())
@@ -380,6 +407,8 @@ LF = "breezy/bzr/lockable_files.py"
 PR = "breezy/bzr/pack_repo.py"
 
 MUTANTS = [
+    Mutant("dirstate lock failure leaves the control files locked", "breezy/bzr/workingtree_4.py", "                self._repo_supports_tree_reference = getattr(\n                    self.branch.repository._format, \"supports_tree_reference\", False\n                )\n            except BaseException:\n                self._control_files.unlock()\n                raise\n        except BaseException:\n            self.branch.unlock()\n            raise\n        return LogicalLockResult(self.unlock)", "                self._repo_supports_tree_reference = getattr(\n                    self.branch.repository._format, \"supports_tree_reference\", False\n                )\n            except BaseException:\n                raise\n        except BaseException:\n            self.branch.unlock()\n            raise\n        return LogicalLockResult(self.unlock)", expect="K3-acquisition-unwinds", count=2),
+    Mutant("CountedLock releases before forgetting the lock", "breezy/counted_lock.py", "            self._lock_mode = None\n            self._lock_count -= 1\n            self._real_lock.unlock()\n", "            self._real_lock.unlock()\n            self._lock_mode = None\n            self._lock_count -= 1\n", expect="K8-failed-release-forgets"),
     Mutant("CountedLock: re-entry resets the count", CL, "        if self._lock_mode:\n            self._lock_count += 1\n        else:\n            self._real_lock.lock_read()", "        if self._lock_mode:\n            self._lock_count = 1\n        else:\n            self._real_lock.lock_read()", expect=["K8-release-once", "K8-acquire-once", "K8-initial-state", "K8-overunlock-refused"]),
     Mutant("CountedLock: release on every unlock", CL, "        else:\n            self._lock_count -= 1\n", "        else:\n            self._lock_count -= 1\n            self._real_lock.unlock()\n", expect=["K8-release-once"]),
     Mutant("CountedLock: lock_write from read mode silently re-enters", CL, '        elif self._lock_mode != "w":\n            raise errors.ReadOnlyError(self)\n', '        elif self._lock_mode is None:\n            raise errors.ReadOnlyError(self)\n', expect=["K8-readonly-refused"]),
